@@ -123,7 +123,7 @@ def exec_history(job):
     vm = job["vmajor"]
     events = []
     base = dict(tid=job["tid"], exc="", ret_int=0, ret_num=[0, 0], flag=False, plat="", s=[0, 0], d=[0, 0], prefix="", perm=[], idx=0,
-                skip=[], pairs=[], lines_distinct=True, same_as_shading_before=True, expect_empty=False, twin_text_equal=True,
+                skip=[], pairs=[], typ="", lines_distinct=True, same_as_shading_before=True, expect_empty=False, twin_text_equal=True,
                 twin_data_equal=True, shared_mutables=0)
     e = dict(base, i=0, act="New")
     try:
@@ -162,6 +162,9 @@ def exec_history(job):
             elif a == "SetProtocolNr":
                 e["flag"] = op["flag"]
                 acl.protocol_nr = op["flag"]
+            elif a == "SetType":
+                e["typ"] = op["typ"]
+                acl.type = op["typ"]
             elif a == "UngroupPorts":
                 acl.ungroup_ports()
             elif a == "Resequence":
@@ -187,9 +190,10 @@ def exec_history(job):
                 e["idx"] = op["idx"]
                 acl.pop(op["idx"] - 1)
             elif a in ("Append", "Insert"):
-                cls = Remark if op["line"].split()[0] == "remark" or (op["line"].split()[0].isdigit() and op["line"].split()[1] == "remark") else Ace
-                obj = cls(op["line"], platform=acl.platform, version=job["ver"], port_nr=acl.port_nr, protocol_nr=acl.protocol_nr,
-                          type=acl.type) if cls is Ace else cls(op["line"], platform=acl.platform, version=job["ver"])
+                text = op.get("line_std", op["line"]) if acl.type == "standard" else op["line"]   # an entry of the list's own type
+                cls = Remark if text.split()[0] == "remark" or (text.split()[0].isdigit() and text.split()[1] == "remark") else Ace
+                obj = cls(text, platform=acl.platform, version=job["ver"], port_nr=acl.port_nr, protocol_nr=acl.protocol_nr,
+                          type=acl.type) if cls is Ace else cls(text, platform=acl.platform, version=job["ver"])
                 if a == "Append":
                     acl.append(obj)
                 else:
@@ -377,9 +381,12 @@ def rand_op(rng, plat_now, weights):
         op["idx"] = rng.randint(1, 6)
     elif a in ("Append", "Insert"):
         op["line"] = rng.choice(["permit ip any any", "remark = H9", "deny tcp any any eq 80", "remark added", "permit udp host 10.0.0.1 any"])
+        op["line_std"] = rng.choice(["permit host 10.0.0.1", "remark added", "deny 10.1.0.0 0.0.255.255", "remark = H9", "permit any log"])
         op["idx"] = rng.randint(1, 5)
     elif a in ("Shading", "ShadowOf", "DeleteShadow"):
         op["skip"] = rng.choice([None, None, ["addrgroup"], ["nc_wildcard"], ["addrgroup", "nc_wildcard"]])
+    elif a == "SetType":
+        op["typ"] = rng.choice(["standard", "extended", "extended"])
     elif a == "EditEntry":
         op["text"] = rng.choice(["host 10.1.2.3", "any", "10.0.0.0 0.0.0.255"])
     elif a == "TwinOp":
@@ -392,8 +399,18 @@ def make_history(rng, tid, weights, nops=None, plat=None, **seedkw):
     ver, vm = rng.choice([("", 0), ("15.2", 15), ("16.9", 16)]) if plat == "ios" else rng.choice([("", 0), ("9.3", 9)])
     header, lines, gdict = seed_acl(rng, plat, **seedkw)
     ops = []
+    std = False      # a standard ACL exists on IOS only: converting one to NX-OS is outside the domain
+    cur = plat
     for _ in range(nops if nops is not None else rng.randint(1, 8)):
         op = rand_op(rng, plat, weights)
+        if op["act"] == "SetType":
+            if cur != "ios":
+                op["typ"] = "extended"
+            std = op["typ"] == "standard"
+        if op["act"] == "SetPlatform":
+            if std:
+                op["plat"] = "ios"
+            cur = op["plat"]
         if op["act"] == "Permute":
             op["perm"] = []
         ops.append(op)
